@@ -169,4 +169,73 @@ def treeDiff (sep : Str) (t1 t2 : Tree) (onlyDiff : Bool) (attrList : List Str) 
     | .error e => .error e
     | .ok t => .ok (some t)
 
+/-! ## specification side of get_tree_diff (component level) -/
+
+/-- (names from the root, attributes) of every node, pre-order -/
+def compRows (t : Tree) : List (List Str × Attrs) := (walk [] [] t).map fun v => (v.names, v.sub.attrs)
+def compPaths (t : Tree) : List (List Str) := (walk [] [] t).map (·.names)
+def attrsAt (t : Tree) (p : List Str) : Option Attrs := (compRows t).lookup p
+
+/-- listed attributes whose values differ, with both values -/
+def changedAttrs (attrList : List Str) (a1 a2 : Attrs) : List (Str × Val × Val) :=
+  attrList.filterMap fun k =>
+    if getAttr a1 k = getAttr a2 k then none else some (k, getAttr a1 k, getAttr a2 k)
+
+inductive Status where
+  | removed | added | changed | same
+  deriving DecidableEq, Repr
+
+def status (attrList : List Str) (t1 t2 : Tree) (p : List Str) : Status :=
+  match attrsAt t1 p, attrsAt t2 p with
+  | some a1, some a2 => if changedAttrs attrList a1 a2 = [] then .same else .changed
+  | some _, none => .removed
+  | none, some _ => .added
+  | none, none => .same
+
+def Status.suffix : Status → Str
+  | .removed => sufRemoved
+  | .added => sufAdded
+  | .changed => sufChanged
+  | .same => []
+
+/-- every component gets the suffix of the status of the prefix ending there -/
+def markFull (st : List Str → Status) (p : List Str) : List Str :=
+  (List.range p.length).map fun i => p.getD i [] ++ (st (p.take (i + 1))).suffix
+
+def allPaths (t1 t2 : Tree) : List (List Str) :=
+  compPaths t1 ++ (compPaths t2).filter fun p => !(compPaths t1).contains p
+
+def keptPaths (attrList : List Str) (t1 t2 : Tree) (onlyDiff : Bool) : List (List Str) :=
+  if onlyDiff then
+    (allPaths t1 t2).filter fun p =>
+      (allPaths t1 t2).any fun q => status attrList t1 t2 q != .same && p.isPrefixOf q
+  else allPaths t1 t2
+
+/-- the value pairs a changed node carries (pair = two consecutive entries) -/
+def carried (attrList : List Str) (t1 t2 : Tree) (p : List Str) : Attrs :=
+  match attrsAt t1 p, attrsAt t2 p with
+  | some a1, some a2 => (changedAttrs attrList a1 a2).flatMap fun kxy => [(kxy.1, kxy.2.1), (kxy.1, kxy.2.2)]
+  | _, _ => []
+
+def expected (attrList : List Str) (t1 t2 : Tree) (onlyDiff : Bool) : List (List Str × Attrs) :=
+  (keptPaths attrList t1 t2 onlyDiff).map fun p => (markFull (status attrList t1 t2) p, carried attrList t1 t2 p)
+
+def endsWithMark (n : Str) : Prop := sufRemoved <:+ n ∨ sufAdded <:+ n ∨ sufChanged <:+ n
+
+/-- strip one mark from a component -/
+def unmark1 (n : Str) : Str :=
+  if sufRemoved.isSuffixOf n || sufAdded.isSuffixOf n || sufChanged.isSuffixOf n then n.take (n.length - 4) else n
+def unmark (m : List Str) : List Str := m.map unmark1
+
+structure NamesOK (c : Char) (t : Tree) : Prop where
+  nonempty : ∀ v ∈ walk [] [] t, v.sub.name ≠ []
+  nosep : ∀ v ∈ walk [] [] t, c ∉ v.sub.name
+  nomark : ∀ v ∈ walk [] [] t, ¬ endsWithMark v.sub.name
+  sibUnique : ∀ v ∈ walk [] [] t, (v.sub.children.map Tree.name).Nodup
+
+structure DiffOK (c : Char) (t1 t2 : Tree) : Prop where
+  sepOK : c ∉ [' ', '(', ')', '-', '+', '~']
+  ok1 : NamesOK c t1
+  ok2 : NamesOK c t2
+  root : t1.name = t2.name
 end Helper
